@@ -5,13 +5,123 @@ PROPERTY = 'C13'
 LEAN_PROPS = 'PlumpyModel.Props.C13'
 ASSUMPTIONS = pm_prop.ASSUMPTIONS
 TRUSTED = pm_prop.TRUSTED
-ALPHABET = ['pause', 'play', 'resume', 'resume-']
+ALPHABET = ['pause', 'play', 'resume', 'resume-', 'resumeN']
 MONITORS = ['c13']
 
 
+def _restore_case(prog):
+    """checkpoint-and-restore stream: take a Bundle at EVERY state event (exiting, entering, entered — i.e. also in the
+    middle of the step's closing transition, between the return and the next step), restore each in a fresh loop, run it
+    to completion with the same resume values and compare with the uninterrupted run."""
+    import asyncio
+    import harness.detloop as detloop
+    import plumpy
+    from plumpy.base.state_machine import StateEventHook
+    from harness import pm
+    fails = []
+    ref = pm.reference_trace(prog)
+    r = pm.Run(prog)
+    r.p.remove_process_listener(r.lis)      # the harness listener references the run (and its loop): not part of a checkpoint
+    snaps = []
+
+    def snap(kind):
+        def cb(sm, hook, state):
+            if kind != 'entered' and state is not None and state.is_terminal():
+                return          # in the middle of the transition into a terminal state there is no next step to restore to
+            try:
+                snaps.append((kind, r.p.state.value, len(r.p._trace), plumpy.Bundle(r.p)))
+            except Exception as e:  # noqa
+                snaps.append((kind, r.p.state.value, len(r.p._trace), e))
+        return cb
+    for hook, kind in ((StateEventHook.EXITING_STATE, 'exiting'), (StateEventHook.ENTERING_STATE, 'entering'),
+                       (StateEventHook.ENTERED_STATE, 'entered')):
+        r.p.add_state_event_callback(hook, snap(kind))
+    for _ in range(200):
+        if not r.tick():
+            break
+    r.finalize()
+    r.close()
+    n = 0
+    for kind, label, ntrace, bundle in snaps:
+        if isinstance(bundle, Exception):
+            fails.append(dict(signature='c13-checkpoint-failed:' + type(bundle).__name__, clause='the process can be checkpointed between the return and the next step',
+                              detail=dict(at=kind, state=label)))
+            continue
+        if label in ('finished', 'excepted', 'killed'):
+            continue
+        n += 1
+        loop = detloop.DetLoop()
+        asyncio.set_event_loop(loop)
+        try:
+            p2 = bundle.unbundle(plumpy.LoadSaveContext(loop=loop))
+        except Exception as e:  # noqa
+            fails.append(dict(signature='c13-restore-failed:' + type(e).__name__, clause='the same holds after a checkpoint restore',
+                              detail=dict(at=kind, state=label, error=repr(e)[:200])))
+            loop.close()
+            continue
+        p2._trace = []
+        p2._raised = []
+        p2._futs = []
+        task = loop.create_task(p2.step_until_terminated())
+        for _ in range(6):
+            loop.drain(500)
+            if p2.has_terminated():
+                break
+            if p2.paused:
+                p2.play()
+            if p2.state.value == 'waiting':
+                p2.resume(5)
+        got = [(x[0], x[1], x[2]) for x in p2._trace]
+        want = ref['trace'][len(ref['trace']) - len(got):] if got else []
+        st = p2.state.value
+        if st == 'finished':
+            res = p2.result()
+            out = f"finished:{'-' if res is None else 99 if asyncio.isfuture(res) else res}:{1 if p2.successful() else 0}"
+        elif st == 'excepted':
+            out = 'excepted:' + pm.excname(p2.exception())
+        else:
+            out = st if st == 'killed' else 'live'
+        if got != want or out != ref['outcome']:
+            fails.append(dict(signature='c13-restore-differs', clause='the same holds when the process was checkpointed and restored between the return and the next step',
+                              detail=dict(checkpoint_at=kind, state=label, restored_trace=got, reference_tail=want, restored_outcome=out,
+                                          reference_outcome=ref['outcome'])))
+        loop.close()
+    return n, fails
+
+
+def _restore_work(item):
+    name, prog = item
+    n, fails = _restore_case(prog)
+    for f in fails:
+        f['case'] = dict(program=name, prog=prog, schedule={}, restore_stream=True)
+    return n, fails
+
+
 def run(ctx):
-    return pm_prop.run_pm(ctx, ALPHABET, MONITORS, k_quick=3, k_thorough=4, n_random_quick=400, n_random_thorough=4000)
+    import multiprocessing as mp
+    from harness import pm
+    out = pm_prop.run_pm(ctx, ALPHABET, MONITORS, k_quick=3, k_thorough=4, n_random_quick=400, n_random_thorough=4000)
+    progs = [(n, p) for n, p in pm.CORPUS.items() if p['kind'] == 'proc' and n != 'RetAwaitable']
+    rng = ctx.rng
+    for i in range(300 if not ctx.thorough else 3000):
+        p = pm.random_prog(rng)
+        if p['kind'] == 'proc':
+            progs.append((f'rand{i}', p))
+    with mp.Pool(ctx.workers) as pool:
+        res = pool.map(_restore_work, progs, chunksize=8)
+    restored = sum(n for n, _ in res)
+    for _n, fails in res:
+        out['failures'].extend(fails)
+    out['evaluations'] += restored
+    out['histograms']['restore_stream'] = dict(programs=len(progs), checkpoints_restored=restored,
+                                                 note='Bundle taken at every exiting/entering/entered state event, restored in a fresh loop')
+    return out
 
 
 def replay(ctx, failure):
+    if failure['case'].get('restore_stream'):
+        from harness import pm
+        prog, _ = pm.fix_case(failure['case'])
+        n, fails = _restore_case(prog)
+        return dict(checkpoints_restored=n, failures=fails)
     return pm_prop.replay_pm(ctx, failure, MONITORS)
